@@ -826,6 +826,47 @@ def _profile(o):
 EXTRA.append(_profile)
 
 
+# ---------------------------------------------------------------------------
+# cli.py (C11, C18, C07 exit status)
+# ---------------------------------------------------------------------------
+
+def _cli(o):
+    cl = _src('gemato/cli.py')
+
+    def method_lines(cls, fn):
+        f = find_func(cl, fn, cls)
+        body = f.body
+        if body and isinstance(body[0], ast.Expr) and isinstance(body[0].value, ast.Constant):
+            body = body[1:]
+        return llist(lstr(x) for st in body for x in _u(st).split('\n') if 'logging.' not in x)
+    for cls in ('UpdateCommand', 'CreateCommand', 'VerifyCommand'):
+        o.item(f'cli_{cls}_call', 'List (List Nat)', (lambda cls=cls: method_lines(cls, '__call__')), '[]')
+
+    def main_excepts():
+        f = find_func(cl, 'main')
+        out = []
+        for n in ast.walk(f):
+            if isinstance(n, ast.Try):
+                for h in n.handlers:
+                    out.append((h.lineno, _u(h.type) if h.type is not None else ''))
+        out.sort()
+        return llist(lstr(t) for _l, t in out)
+    o.item('cli_main_excepts', 'List (List Nat)', main_excepts, '[]')
+
+    def set_ts():
+        rl = _src('gemato/recursiveloader.py')
+        out = []
+        for fn in ('find_timestamp', 'set_timestamp'):
+            f = find_func(rl, fn, 'ManifestRecursiveLoader')
+            body = f.body[1:] if isinstance(f.body[0], ast.Expr) and isinstance(f.body[0].value, ast.Constant) else f.body
+            out += [x for st in body for x in _u(st).split('\n')]
+        return llist(lstr(x) for x in out)
+    o.item('cli_timestamp_methods', 'List (List Nat)', set_ts, '[]')
+
+
+EXTRA.append(_cli)
+
+
 if __name__ == '__main__':
     errs = write_extracted()
     print(open(os.path.join(LEAN, 'Gemato', 'Extracted.lean')).read())
